@@ -97,13 +97,16 @@ structure SeqInv (s : KvStore) (bound dbound : Nat) : Prop where
   bnd : ∀ b n i, s.lookup b n = some i → i < bound
   dbnd : ∀ b n i, s.disk b n = some i → i < dbound
   inj : ∀ b n b' n' i, s.lookup b n = some i → s.lookup b' n' = some i → b = b' ∧ n = n'
+  /-- the IsEmpty() flags are accurate -/
+  mutE : s.mutEmpty = true → ∀ b n, s.mutable b n = none
+  immE : ∀ d, s.immutable = some (d, true) → ∀ b n, d b n = none
 
 theorem seqInv_init (a b : Nat) : SeqInv {} a b := by
-  refine ⟨rfl, ?_, ?_, ?_, ?_, ?_⟩ <;> intro b n <;> simp [lookup_eq, KvStore.immDict, Dict.empty]
+  refine ⟨rfl, ?_, ?_, ?_, ?_, ?_, fun _ _ _ => rfl, fun d hd => by cases hd⟩ <;> intro b n <;> simp [lookup_eq, KvStore.immDict, Dict.empty]
 
 theorem seqInv_mono {s : KvStore} {a b a' b' : Nat} (h : SeqInv s a b) (ha : a ≤ a') (hb : b ≤ b') : SeqInv s a' b' :=
   ⟨h.snapDisk, h.immSub, h.diskSub, fun x n i hi => Nat.lt_of_lt_of_le (h.bnd x n i hi) ha,
-   fun x n i hi => Nat.lt_of_lt_of_le (h.dbnd x n i hi) hb, h.inj⟩
+   fun x n i hi => Nat.lt_of_lt_of_le (h.dbnd x n i hi) hb, h.inj, h.mutE, h.immE⟩
 
 /-- creating a missing key with the counter value -/
 theorem seqInv_insert {s : KvStore} {bound dbound b n : Nat} (h : SeqInv s bound dbound) (hm : s.lookup b n = none) :
@@ -114,7 +117,7 @@ theorem seqInv_insert {s : KvStore} {bound dbound b n : Nat} (h : SeqInv s bound
     by_cases hk : b' = b ∧ n' = n
     · obtain ⟨rfl, rfl⟩ := hk; rw [hm] at this; cases this
     · simp [hk, this]
-  refine ⟨h.snapDisk, ?_, ?_, ?_, h.dbnd, ?_⟩
+  refine ⟨h.snapDisk, ?_, ?_, ?_, h.dbnd, ?_, fun hh => absurd hh (by simp [KvStore.insert]), h.immE⟩
   · intro b' n' i hi; exact keep _ _ _ (h.immSub _ _ _ hi)
   · intro b' n' i hi; exact keep _ _ _ (h.diskSub _ _ _ hi)
   · intro b' n' i hi
@@ -137,7 +140,7 @@ theorem seqInv_prepare {s : KvStore} {bound dbound : Nat} (h : SeqInv s bound db
     cases hi : s.immutable <;> simp [KvStore.prepareFlush, hi]
   have hsn : s.prepareFlush.snap = s.snap := by
     cases hi : s.immutable <;> simp [KvStore.prepareFlush, hi]
-  refine ⟨by rw [hd, hsn]; exact h.snapDisk, ?_, ?_, ?_, ?_, ?_⟩
+  refine ⟨by rw [hd, hsn]; exact h.snapDisk, ?_, ?_, ?_, ?_, ?_, ?_, ?_⟩
   · intro b n i hi
     rw [lookup_prepare]
     cases him : s.immutable with
@@ -152,6 +155,16 @@ theorem seqInv_prepare {s : KvStore} {bound dbound : Nat} (h : SeqInv s bound db
   · intro b n i hi; rw [lookup_prepare] at hi; exact h.bnd _ _ _ hi
   · intro b n i hi; rw [hd] at hi; exact h.dbnd _ _ _ hi
   · intro b n b' n' i h1 h2; rw [lookup_prepare] at h1 h2; exact h.inj _ _ _ _ _ h1 h2
+  · intro hm b n
+    cases him : s.immutable with
+    | some p => rw [show s.prepareFlush = s by simp [KvStore.prepareFlush, him]] at hm ⊢; exact h.mutE hm b n
+    | none => simp [KvStore.prepareFlush, him, Dict.empty]
+  · intro d' hd' b n
+    cases him : s.immutable with
+    | some p => rw [show s.prepareFlush = s by simp [KvStore.prepareFlush, him]] at hd'; exact h.immE d' hd' b n
+    | none =>
+      simp [KvStore.prepareFlush, him] at hd'
+      rw [← hd'.1]; exact h.mutE hd'.2 b n
 
 theorem flush_disk_sub {s : KvStore} {bound dbound : Nat} (h : SeqInv s bound dbound) (b n i : Nat)
     (hi : s.flush.disk b n = some i) : s.lookup b n = some i := by
@@ -185,12 +198,27 @@ by whatever bounds the view (`dbound'`), in particular by a counter synced after
 theorem seqInv_flush {s : KvStore} {bound dbound' : Nat} {dbound : Nat} (h : SeqInv s bound dbound)
     (hb : bound ≤ dbound') : SeqInv s.flush bound dbound' := by
   have hl := lookup_flush s h.snapDisk
-  refine ⟨flush_snap s h.snapDisk, ?_, ?_, ?_, ?_, ?_⟩
+  have hmut : s.flush.mutable = s.mutable ∧ s.flush.mutEmpty = s.mutEmpty := by
+    cases him : s.immutable with
+    | none => simp [KvStore.flush, KvStore.commit, KvStore.finish, him]
+    | some p => obtain ⟨d, e⟩ := p; cases e <;> simp [KvStore.flush, KvStore.commit, KvStore.finish, him]
+  have himm : ∀ d', s.flush.immutable = some (d', true) → s.immutable = some (d', true) := by
+    intro d' hd'
+    cases him : s.immutable with
+    | none => simp [KvStore.flush, KvStore.commit, KvStore.finish, him] at hd'
+    | some p =>
+      obtain ⟨d, e⟩ := p
+      cases e with
+      | true => simpa [KvStore.flush, KvStore.commit, KvStore.finish, him] using hd'
+      | false => simp [KvStore.flush, KvStore.commit, KvStore.finish, him] at hd'
+  refine ⟨flush_snap s h.snapDisk, ?_, ?_, ?_, ?_, ?_, ?_, ?_⟩
   · intro b n i hi; rw [hl]; exact h.immSub _ _ _ (flush_immDict s b n i hi)
   · intro b n i hi; rw [hl]; exact flush_disk_sub h b n i hi
   · intro b n i hi; rw [hl] at hi; exact h.bnd _ _ _ hi
   · intro b n i hi; exact Nat.lt_of_lt_of_le (h.bnd _ _ _ (flush_disk_sub h b n i hi)) hb
   · intro b n b' n' i h1 h2; rw [hl] at h1 h2; exact h.inj _ _ _ _ _ h1 h2
+  · intro hm b n; rw [hmut.1]; rw [hmut.2] at hm; exact h.mutE hm b n
+  · intro d' hd'; exact h.immE d' (himm d' hd')
 
 /-- a flush that commits nothing new keeps the kv-family bound -/
 theorem flush_disk_old {s : KvStore} (h : s.needFlush = false) : s.flush = s := by
@@ -207,12 +235,84 @@ theorem flush_disk_old {s : KvStore} (h : s.needFlush = false) : s.flush = s := 
 theorem seqInv_recover {s : KvStore} {bound dbound : Nat} (h : SeqInv s bound dbound) : SeqInv s.recover dbound dbound := by
   have hl := lookup_recover s
   have hd : s.recover.disk = s.disk := rfl
-  refine ⟨rfl, ?_, ?_, ?_, ?_, ?_⟩
+  refine ⟨rfl, ?_, ?_, ?_, ?_, ?_, fun _ _ _ => rfl, fun d' hd' => by simp [KvStore.recover] at hd'⟩
   · intro b n i hi; simp [KvStore.recover, KvStore.immDict, Dict.empty] at hi
   · intro b n i hi; rw [hl]; exact hi
   · intro b n i hi; rw [hl] at hi; exact h.dbnd _ _ _ hi
   · intro b n i hi; exact h.dbnd _ _ _ hi
   · intro b n b' n' i h1 h2; rw [hl] at h1 h2
     exact h.inj _ _ _ _ _ (h.diskSub _ _ _ h1) (h.diskSub _ _ _ h2)
+
+/-! ### `PrepareFlush` in the shape that also swaps an empty immutable map -/
+
+theorem lookup_dropEmpty {s : KvStore} (hE : ∀ d, s.immutable = some (d, true) → ∀ b n, d b n = none) (b n : Nat) :
+    s.dropEmpty.lookup b n = s.lookup b n := by
+  unfold KvStore.dropEmpty
+  cases him : s.immutable with
+  | none => rfl
+  | some p =>
+    obtain ⟨d, e⟩ := p
+    cases e with
+    | false => rfl
+    | true =>
+      rw [lookup_eq, lookup_eq]
+      simp [KvStore.immDict, him, Dict.empty, hE d him b n]
+
+theorem seqInv_dropEmpty {s : KvStore} {bound dbound : Nat} (h : SeqInv s bound dbound) : SeqInv s.dropEmpty bound dbound := by
+  have hl := lookup_dropEmpty h.immE
+  have hd : s.dropEmpty.disk = s.disk := by
+    unfold KvStore.dropEmpty; cases s.immutable with
+    | none => rfl
+    | some p => obtain ⟨d, e⟩ := p; cases e <;> rfl
+  have hsn : s.dropEmpty.snap = s.snap := by
+    unfold KvStore.dropEmpty; cases s.immutable with
+    | none => rfl
+    | some p => obtain ⟨d, e⟩ := p; cases e <;> rfl
+  have hmu : s.dropEmpty.mutable = s.mutable ∧ s.dropEmpty.mutEmpty = s.mutEmpty := by
+    unfold KvStore.dropEmpty; cases s.immutable with
+    | none => exact ⟨rfl, rfl⟩
+    | some p => obtain ⟨d, e⟩ := p; cases e <;> exact ⟨rfl, rfl⟩
+  have himd : ∀ b n i, s.dropEmpty.immDict b n = some i → s.immDict b n = some i := by
+    intro b n i hi
+    unfold KvStore.dropEmpty at hi
+    cases him : s.immutable with
+    | none => simpa [him] using hi
+    | some p =>
+      obtain ⟨d, e⟩ := p
+      cases e with
+      | false => simpa [him] using hi
+      | true => simp [him, KvStore.immDict, Dict.empty] at hi
+  have himm : ∀ d', s.dropEmpty.immutable = some (d', true) → False := by
+    intro d' hd'
+    unfold KvStore.dropEmpty at hd'
+    cases him : s.immutable with
+    | none => simp [him] at hd'
+    | some p =>
+      obtain ⟨d, e⟩ := p
+      cases e with
+      | false => simp [him] at hd'
+      | true => simp [him] at hd'
+  refine ⟨by rw [hd, hsn]; exact h.snapDisk, ?_, ?_, ?_, ?_, ?_, ?_, ?_⟩
+  · intro b n i hi; rw [hl]; exact h.immSub _ _ _ (himd _ _ _ hi)
+  · intro b n i hi; rw [hl]; rw [hd] at hi; exact h.diskSub _ _ _ hi
+  · intro b n i hi; rw [hl] at hi; exact h.bnd _ _ _ hi
+  · intro b n i hi; rw [hd] at hi; exact h.dbnd _ _ _ hi
+  · intro b n b' n' i h1 h2; rw [hl] at h1 h2; exact h.inj _ _ _ _ _ h1 h2
+  · intro hm b n; rw [hmu.1]; rw [hmu.2] at hm; exact h.mutE hm b n
+  · intro d' hd'; exact absurd (himm d' hd') id
+
+theorem seqInv_prepareE {s : KvStore} {bound dbound : Nat} (h : SeqInv s bound dbound) (se : Bool) :
+    SeqInv (s.prepareFlushE se) bound dbound := by
+  unfold KvStore.prepareFlushE
+  cases se with
+  | false => simpa using seqInv_prepare h
+  | true => simpa using seqInv_prepare (seqInv_dropEmpty h)
+
+theorem lookup_prepareE {s : KvStore} {bound dbound : Nat} (h : SeqInv s bound dbound) (se : Bool) (b n : Nat) :
+    (s.prepareFlushE se).lookup b n = s.lookup b n := by
+  unfold KvStore.prepareFlushE
+  cases se with
+  | false => simp [lookup_prepare]
+  | true => simp [lookup_prepare, lookup_dropEmpty h.immE]
 
 end LinVerif.IdAssign
